@@ -2600,6 +2600,24 @@ func (x *c14ctx) r5(tab *c14mapUse) {
 					keyRefs[c14canon(y.Key)] = true
 				}
 			}
+			// the lookup / admission of the entry may sit in a helper that takes
+			// the key as a parameter (lookupOrAdmit(key, ...)): the key of this
+			// message is then the argument handed to that helper
+			allInstrs(fn, func(in ssa.Instruction) {
+				call, ok := in.(*ssa.Call)
+				if !ok {
+					return
+				}
+				callee := staticCallee(call)
+				if callee == nil || x.deleterParam(callee, tab) >= 0 {
+					return // a dropper does not name the key of this message
+				}
+				for _, i := range x.c14keyParams(callee, tab, 0) {
+					if i < len(call.Call.Args) {
+						keyRefs[c14canon(call.Call.Args[i])] = true
+					}
+				}
+			})
 			isDrop := func(in ssa.Instruction) bool {
 				return x.isDrop(in, tab, func(k ssa.Value) bool { return keyRefs[c14canon(k)] })
 			}
@@ -2666,6 +2684,56 @@ func (x *c14ctx) r5(tab *c14mapUse) {
 		}
 		c.Req(!free, ord.key("C14.R5:received-writer:"+fnName(fr.Fn)), r5, p.InstrPos(fr.Instr), "received is written on a path that stored no chunk")
 	}
+}
+
+// c14keyParams: indices of the parameters of fn that are used, unchanged, as the
+// key of a lookup or update of the table in fn (or, one level further, in a
+// helper fn hands them to).
+func (x *c14ctx) c14keyParams(fn *ssa.Function, tab *c14mapUse, depth int) []int {
+	if fn == nil || len(fn.Blocks) == 0 || depth > 1 || !x.p.IsRepoFn(fn) {
+		return nil
+	}
+	hit := map[int]bool{}
+	mark := func(k ssa.Value) {
+		kr := c14canon(k)
+		if kr.deref || kr.path != "" {
+			return
+		}
+		for i, prm := range fn.Params {
+			if kr.root == ssa.Value(prm) {
+				hit[i] = true
+			}
+		}
+	}
+	allInstrs(fn, func(in ssa.Instruction) {
+		switch y := in.(type) {
+		case *ssa.Lookup:
+			if tab.is(y.X) {
+				mark(y.Index)
+			}
+		case *ssa.MapUpdate:
+			if tab.is(y.Map) {
+				mark(y.Key)
+			}
+		case *ssa.Call:
+			callee := staticCallee(y)
+			if callee == nil || callee == fn {
+				return
+			}
+			for _, i := range x.c14keyParams(callee, tab, depth+1) {
+				if i < len(y.Call.Args) {
+					mark(y.Call.Args[i])
+				}
+			}
+		}
+	})
+	var out []int
+	for i := range fn.Params {
+		if hit[i] {
+			out = append(out, i)
+		}
+	}
+	return out
 }
 
 // totalAgreement: every source of the entry pointer is either the new entry
